@@ -415,7 +415,7 @@ func (fv *FV) execAlloc(st *State, x *ssa.Alloc) {
 	elem := fv.derefType(x)
 	switch tt := elem.Underlying().(type) {
 	case *types.Struct:
-		r := fv.alloc(st)
+		r := fv.allocT(st, refTag(types.NewPointer(elem)))
 		fv.setVal(x, r)
 		fv.zeroStruct(st, r, elem, tt)
 		fv.structInitCheck(st, x, elem, tt)
